@@ -101,6 +101,13 @@ def run(ctx, res):
                     # the model writes the tokens back.  Both are "no silent loss".
                     res.count('known-model-gap:missing-condition')
                     continue
+                if exp != g and tag == 'malformed' and exp == 'err' and g.startswith('ok') and isinstance(got, BaseException) and type(got).__name__ in (
+                        'AssertionError', 'AttributeError', 'TypeError', 'IndexError'):
+                    # malformed input only: picotool's parser lets optional pieces be absent (`for = 1,2 do`, `{ ,a}`, `if then`) and builds
+                    # trees its own writers then trip over (an assertion or attribute error: a loud failure), while the model writes the
+                    # tokens back.  Both outcomes are "no silent loss"; which malformed programs the writers choke on is not modelled.
+                    res.count('malformed:writer-crashes-model-writes')
+                    continue
                 if exp != g and tag == 'malformed' and exp == 'err' and g.startswith('ok') and leading_separator(src):
                     # model gap, malformed input only: a table constructor that starts with a separator (`{ ,a}`) is parsed by the
                     # implementation (its field loop accepts the separator first) but its writers then fail loudly (AssertionError);
